@@ -673,6 +673,7 @@ func (interp *Interpreter) cfg(root *node, sc *scope, importPath, pkgName string
 			// Early parse of constDecl subtrees, to compute all constant
 			// values which may be used in further declarations.
 			if !sc.global {
+				sc.iota = 0
 				for _, c := range n.child {
 					if _, err = interp.cfg(c, sc, importPath, pkgName); err != nil {
 						// No error processing here, to allow recovery in subtree nodes.
@@ -680,6 +681,9 @@ func (interp *Interpreter) cfg(root *node, sc *scope, importPath, pkgName string
 					}
 				}
 			}
+			// The specifications are numbered from zero, whatever an earlier declaration
+			// (or the early parse above) which failed has left.
+			sc.iota = 0
 
 		case arrayType, basicLit, chanType, chanTypeRecv, chanTypeSend, funcType, interfaceType, mapType, structType:
 			n.typ, err = nodeType(interp, sc, n)
